@@ -65,9 +65,26 @@ for m in mods:
     except Exception as e:  # noqa
         out["modules"][m] = {"error": repr(e)}
 
+def module_classes(m, mod):
+    """classes of the module: its attributes, and classes it creates without binding a name (registered opcode / analysis classes)"""
+    seen = []
+    for name, obj in vars(mod).items():
+        if isinstance(obj, type) and obj.__module__ == mod.__name__:
+            seen.append((name, obj))
+    extra = []
+    if m == "fickle":
+        extra = list(getattr(mod, "OPCODES_BY_NAME", {}).values())
+    if m == "analysis" and hasattr(mod, "Analysis"):
+        extra = [type(a) for a in getattr(mod.Analysis, "ALL", [])]
+    for obj in extra:
+        if isinstance(obj, type) and obj.__module__ == mod.__name__ and all(obj is not o for _, o in seen):
+            seen.append((obj.__qualname__, obj))
+    return seen
+
+
 for m, mod in loaded.items():
     out["modules"][m] = {"file": mod.__file__}
-    for name, obj in vars(mod).items():
+    for name, obj in module_classes(m, mod) + [(n, o) for n, o in vars(mod).items() if not isinstance(o, type)]:
         if isinstance(obj, type) and obj.__module__ == mod.__name__:
             key = f"{m}.{obj.__qualname__}"
             attrs, consts = {}, {}
